@@ -450,4 +450,300 @@ theorem decodeChunks_count : ∀ (f n : Nat) (m : Metadata) (mm : Nat) {src : By
       have := decodeChunks_count f n m1 mm1 this.2 h2
       omega
 
+
+theorem decodeChunks_zero_ok {f : Nat} {m : Metadata} {mm : Nat} {src : Bytes} {its : List Item}
+    {m' : Metadata} {rest : Bytes} (h : decodeChunks f 0 m mm src = (its, .ok (m', rest))) :
+    its = [] ∧ m' = m ∧ rest = src := by
+  have : decodeChunks f 0 m mm src = ([], .ok (m, src)) := by cases f <;> rfl
+  rw [this] at h
+  simp at h
+  obtain ⟨rfl, rfl, rfl⟩ := h
+  exact ⟨rfl, rfl, rfl⟩
+
+theorem decodeChunks_succ_ok {f n : Nat} {m : Metadata} {mm : Nat} {src : Bytes} {its : List Item}
+    {m' : Metadata} {rest : Bytes} (h : decodeChunks f (n + 1) m mm src = (its, .ok (m', rest))) :
+    ∃ its1 m1 mm1 r1 its2 f', f = f' + 1 ∧ decodeMetadataChunk m mm src = (its1, .ok (m1, mm1, r1)) ∧
+      decodeChunks f' n m1 mm1 r1 = (its2, .ok (m', rest)) ∧ its = its1 ++ its2 := by
+  cases f with
+  | zero => simp [decodeChunks] at h
+  | succ f =>
+    unfold decodeChunks at h
+    rcases h1 : decodeMetadataChunk m mm src with ⟨its1, (e | ⟨m1, mm1, r1⟩)⟩ <;> rw [h1] at h <;>
+      simp only at h
+    · simp at h
+    · rcases h2 : decodeChunks f n m1 mm1 r1 with ⟨its2, r⟩
+      rw [h2] at h
+      simp at h
+      obtain ⟨rfl, rfl⟩ := h
+      exact ⟨its1, m1, mm1, r1, its2, f, rfl, rfl, h2, rfl⟩
+
+/-- complete description of a valid metadata section: no chunk; one chunk (viewBox or palette); or a
+    viewBox chunk followed by a palette chunk -/
+theorem decodeChunks_shapes {f n : Nat} {m0 : Metadata} {src : Bytes} {its : List Item} {m : Metadata}
+    {rest : Bytes} (h : decodeChunks f n m0 0 src = (its, .ok (m, rest))) :
+    (n = 0 ∧ m = m0 ∧ its = [] ∧ rest = src) ∨
+    (n = 1 ∧ ∃ mm', ChunkOk m0 0 src its m mm' rest) ∨
+    (n = 2 ∧ ∃ its1 m1 r1 its2, ChunkOk m0 0 src its1 m1 1 r1 ∧ ChunkOk m1 1 r1 its2 m 2 rest ∧
+      its = its1 ++ its2) := by
+  have hn := decodeChunks_count f n m0 0 (by omega) h
+  match n, h with
+  | 0, h =>
+    obtain ⟨rfl, rfl, rfl⟩ := decodeChunks_zero_ok h
+    exact .inl ⟨rfl, rfl, rfl, rfl⟩
+  | 1, h =>
+    obtain ⟨its1, m1, mm1, r1, its2, f', rfl, h1, h2, rfl⟩ := decodeChunks_succ_ok h
+    obtain ⟨rfl, rfl, rfl⟩ := decodeChunks_zero_ok h2
+    exact .inr (.inl ⟨rfl, mm1, by simpa using decodeMetadataChunk_ok h1⟩)
+  | 2, h =>
+    obtain ⟨its1, m1, mm1, r1, its2, f', rfl, h1, h2, rfl⟩ := decodeChunks_succ_ok h
+    obtain ⟨its3, m2, mm2, r2, its4, f'', rfl, h3, h4, rfl⟩ := decodeChunks_succ_ok h2
+    obtain ⟨rfl, rfl, rfl⟩ := decodeChunks_zero_ok h4
+    have c1 := decodeMetadataChunk_ok h1
+    have c2 := decodeMetadataChunk_ok h3
+    refine .inr (.inr ⟨rfl, its1, m1, r1, its3, ?_, ?_, by simp⟩)
+    · cases c1 with
+      | viewBox => exact .viewBox ‹_› ‹_› ‹_› ‹_› ‹_› ‹_› ‹_› ‹_› ‹_› ‹_› ‹_›
+      | palette => cases c2 <;> omega
+    · cases c1 with
+      | viewBox =>
+        cases c2 with
+        | viewBox => omega
+        | palette => exact .palette ‹_› ‹_› ‹_› ‹_› ‹_›
+      | palette => cases c2 <;> omega
+  | n + 3, _ => omega
+
+/-! ## C13: what the chunks store -/
+
+/-- every entry is a valid alpha-premultiplied colour -/
+def PalValid (p : Palette) : Prop := ∀ j (hj : j < 64), p[j].validPremul = true
+
+theorem defaultPalette_getElem (j : Nat) (hj : j < 64) : defaultPalette[j] = RGBA.black := by
+  simp [defaultPalette, Regs.const]
+
+theorem defaultPalette_valid : PalValid defaultPalette := by
+  intro j hj
+  rw [defaultPalette_getElem j hj]
+  decide
+
+/-- a viewBox chunk stores the four coordinates, which form a non-inverted box of finite numbers,
+    and leaves the palette alone -/
+theorem ChunkOk.viewBox_spec {m : Metadata} {minMID : Nat} {src : Bytes} {its : List Item}
+    {m' : Metadata} {rest : Bytes} (h : ChunkOk m minMID src its m' 1 rest) :
+    m'.palette = m.palette ∧ minMID = 0 ∧
+    ¬ m'.viewBox.maxX < m'.viewBox.minX ∧ ¬ m'.viewBox.maxY < m'.viewBox.minY ∧
+    isNaNOrInfinity m'.viewBox.minX = false ∧ isNaNOrInfinity m'.viewBox.minY = false ∧
+    isNaNOrInfinity m'.viewBox.maxX = false ∧ isNaNOrInfinity m'.viewBox.maxY = false ∧
+    ∃ length w src1 w2 src2 its4, decodeNatural src = some (length, w, src1) ∧
+      decodeNatural src1 = some (0, w2, src2) ∧
+      decodeCoordinates 4 src2 =
+        (its4, some ([m'.viewBox.minX, m'.viewBox.minY, m'.viewBox.maxX, m'.viewBox.maxY], rest)) := by
+  generalize hone : (1 : Nat) = one at h
+  cases h with
+  | viewBox h1 h2 hmin h4 q1 q2 q3 q4 q5 q6 hlen =>
+    exact ⟨rfl, hmin, q1, q2, q3, q4, q5, q6, _, _, _, _, _, _, h1, h2, h4⟩
+  | palette => omega
+
+/-- a palette chunk with header byte `hb` stores the `N+1 = 1 + (hb & 0x3f)` colours that follow
+    (converted by `Color.RGBA()`: indirect and non-premultiplied colours become opaque black) into
+    entries `0..N` and leaves the entries above `N` and the viewBox alone -/
+theorem ChunkOk.palette_spec {m : Metadata} {minMID : Nat} {src : Bytes} {its : List Item}
+    {m' : Metadata} {rest : Bytes} (h : ChunkOk m minMID src its m' 2 rest) :
+    m'.viewBox = m.viewBox ∧
+    ∃ length w src1 w2 hb src3 cols, decodeNatural src = some (length, w, src1) ∧
+      decodeNatural src1 = some (1, w2, hb :: src3) ∧
+      decodeColors (palDec (hb >>> 6).toNat) (1 + (hb &&& 0x3f).toNat) src3 = some (cols, rest) ∧
+      cols.length = 1 + (hb &&& 0x3f).toNat ∧
+      (∀ j (hj : j < 64), 1 + (hb &&& 0x3f).toNat ≤ j → m'.palette[j] = m.palette[j]) ∧
+      (∀ t (ht : t < cols.length) (hj : t < 64), m'.palette[t] = cols[t].toRGBA.1) ∧
+      ∃ l0 l1 its4, its = l0 :: l1 ::
+        .line ⟨[hb], .palHeader (1 + (hb &&& 0x3f).toNat) (1 + (hb >>> 6).toNat)⟩ :: its4 := by
+  generalize htwo : (2 : Nat) = two at h
+  cases h with
+  | viewBox => omega
+  | @palette length w src1 w2 hb src3 its4 pal' _ h1 h2 hmin h4 hlen =>
+    have := and63_le hb
+    obtain ⟨p3, cols, _, _, _, _, _, hdc, hcl, hpa, hpb, _⟩ :=
+      decodePaletteColors_some (palDec_colDec _) _ 0 _ (by omega) h4
+    refine ⟨rfl, length, w, src1, w2, hb, src3, cols, h1, h2, hdc, hcl, ?_, ?_, _, _, _, rfl⟩
+    · intro j hj hle
+      exact hpa j hj (by omega)
+    · intro t ht hj
+      have := hpb t ht (by omega)
+      simpa using this
+
+theorem ChunkOk.palValid {m : Metadata} {minMID : Nat} {src : Bytes} {its : List Item}
+    {m' : Metadata} {mm' : Nat} {rest : Bytes} (h : ChunkOk m minMID src its m' mm' rest)
+    (hv : PalValid m.palette) : PalValid m'.palette := by
+  cases h with
+  | viewBox => exact hv
+  | palette h1 h2 hmin h4 hlen =>
+    rename_i length w src1 w2 hb src3 its4 pal'
+    have := and63_le hb
+    obtain ⟨p3, cols, _, _, _, _, _, hdc, hcl, hpa, hpb, _⟩ :=
+      decodePaletteColors_some (palDec_colDec _) _ 0 _ (by omega) h4
+    intro j hj
+    by_cases hjc : j < 1 + (hb &&& 0x3f).toNat
+    · have := hpb j (by omega) (by omega)
+      simp only [Nat.zero_add] at this
+      show pal'[j].validPremul = true
+      rw [this]
+      exact toRGBA_validPremul _
+    · show pal'[j].validPremul = true
+      rw [hpa j hj (by omega)]
+      exact hv j hj
+
+theorem decodeChunks_palValid : ∀ (f n : Nat) (m : Metadata) (mm : Nat) {src : Bytes} {its : List Item}
+    {m' : Metadata} {rest : Bytes}, decodeChunks f n m mm src = (its, .ok (m', rest)) →
+    PalValid m.palette → PalValid m'.palette
+  | f, 0, m, mm, src, its, m', rest, h, hv => by
+    obtain ⟨_, rfl, _⟩ := decodeChunks_zero_ok h
+    exact hv
+  | f, n + 1, m, mm, src, its, m', rest, h, hv => by
+    obtain ⟨its1, m1, mm1, r1, its2, f', rfl, h1, h2, rfl⟩ := decodeChunks_succ_ok h
+    exact decodeChunks_palValid f' n m1 mm1 h2 ((decodeMetadataChunk_ok h1).palValid hv)
+
+theorem sanitizePalette_valid (p : Palette) : PalValid (sanitizePalette p) := by
+  intro j hj
+  unfold sanitizePalette
+  rw [Vector.getElem_map]
+  split
+  · assumption
+  · decide
+
+theorem applyOptions_palValid (m : Metadata) (opts : List DecodeOption) (hv : PalValid m.palette) :
+    PalValid (applyOptions m opts).palette := by
+  unfold applyOptions
+  cases opts with
+  | nil => simpa using hv
+  | cons o os =>
+    simp only [List.isEmpty_cons, Bool.false_eq_true, if_false]
+    exact sanitizePalette_valid _
+
+theorem applyOptions_nil (m : Metadata) : applyOptions m [] = m := rfl
+
+/-! ## C13: rejections -/
+
+theorem chunk_unknown_mid {m : Metadata} {minMID : Nat} {src : Bytes} {length w : Nat} {src1 : Bytes}
+    {mid w2 : Nat} {src2 : Bytes} (h1 : decodeNatural src = some (length, w, src1))
+    (h2 : decodeNatural src1 = some (mid, w2, src2)) (h : 2 ≤ mid) :
+    (decodeMetadataChunk m minMID src).2 = .error .unsupportedMetadataIdentifier := by
+  unfold decodeMetadataChunk
+  rw [h1]; simp only
+  rw [h2]; simp only
+  rw [if_pos h]
+
+theorem chunk_mid_order {m : Metadata} {minMID : Nat} {src : Bytes} {length w : Nat} {src1 : Bytes}
+    {mid w2 : Nat} {src2 : Bytes} (h1 : decodeNatural src = some (length, w, src1))
+    (h2 : decodeNatural src1 = some (mid, w2, src2)) (h : mid < 2) (ho : mid < minMID) :
+    (decodeMetadataChunk m minMID src).2 = .error .metadataIdentifierOrder := by
+  unfold decodeMetadataChunk
+  rw [h1]; simp only
+  rw [h2]; simp only
+  rw [if_neg (by omega), if_pos ho]
+
+theorem chunk_viewBox_rejected {m : Metadata} {src : Bytes} {length w : Nat} {src1 : Bytes}
+    {w2 : Nat} {src2 : Bytes} {its4 : List Item} {a b c d : F32} {rest : Bytes}
+    (h1 : decodeNatural src = some (length, w, src1)) (h2 : decodeNatural src1 = some (0, w2, src2))
+    (h4 : decodeCoordinates 4 src2 = (its4, some ([a, b, c, d], rest)))
+    (hbad : c < a ∨ d < b ∨ isNaNOrInfinity a = true ∨ isNaNOrInfinity b = true ∨
+      isNaNOrInfinity c = true ∨ isNaNOrInfinity d = true) :
+    (decodeMetadataChunk m 0 src).2 = .error .invalidViewBox := by
+  unfold decodeMetadataChunk
+  rw [h1]; simp only
+  rw [h2]; simp only
+  rw [if_neg (by omega), if_neg (by omega), if_pos trivial, h4]
+  simp only
+  rw [if_pos hbad]
+
+theorem chunk_viewBox_length_rejected {m : Metadata} {src : Bytes} {length w : Nat} {src1 : Bytes}
+    {w2 : Nat} {src2 : Bytes} {its4 : List Item} {a b c d : F32} {rest : Bytes}
+    (h1 : decodeNatural src = some (length, w, src1)) (h2 : decodeNatural src1 = some (0, w2, src2))
+    (h4 : decodeCoordinates 4 src2 = (its4, some ([a, b, c, d], rest)))
+    (hgood : ¬ (c < a ∨ d < b ∨ isNaNOrInfinity a = true ∨ isNaNOrInfinity b = true ∨
+      isNaNOrInfinity c = true ∨ isNaNOrInfinity d = true))
+    (hlen : src1.length ≠ length + rest.length) :
+    (decodeMetadataChunk m 0 src).2 = .error .inconsistentMetadataChunkLength := by
+  unfold decodeMetadataChunk
+  rw [h1]; simp only
+  rw [h2]; simp only
+  rw [if_neg (by omega), if_neg (by omega), if_pos trivial, h4]
+  simp only
+  rw [if_neg hgood, if_pos (by omega)]
+
+theorem chunk_palette_length_rejected {m : Metadata} {minMID : Nat} {src : Bytes} {length w : Nat}
+    {src1 : Bytes} {w2 : Nat} {hb : UInt8} {src3 : Bytes} {its4 : List Item} {pal' : Palette} {rest : Bytes}
+    (h1 : decodeNatural src = some (length, w, src1)) (h2 : decodeNatural src1 = some (1, w2, hb :: src3))
+    (hmin : minMID ≤ 1)
+    (h4 : decodePaletteColors (palDec (hb >>> 6).toNat) (1 + (hb &&& 0x3f).toNat) 0 m.palette src3 =
+      some (its4, pal', rest))
+    (hlen : src1.length ≠ length + rest.length) :
+    (decodeMetadataChunk m minMID src).2 = .error .inconsistentMetadataChunkLength := by
+  unfold decodeMetadataChunk
+  rw [h1]; simp only
+  rw [h2]; simp only
+  generalize hX : decodePaletteColors _ (1 + (hb &&& 63).toNat) 0 m.palette src3 = X
+  have hX' : X = some (its4, pal', rest) := by rw [← hX]; exact h4
+  subst hX'
+  have e : ¬ (rest.length : Int) = (src1.length : Int) - (length : Int) := by omega
+  simp [show ¬ 1 < minMID by omega, e]
+
+/-- after an accepted chunk with identifier `mid`, only identifiers above `mid` are allowed -/
+theorem ChunkOk.next_mid {m : Metadata} {minMID : Nat} {src : Bytes} {its : List Item}
+    {m' : Metadata} {mm' : Nat} {rest : Bytes} (h : ChunkOk m minMID src its m' mm' rest) :
+    ∃ length w src1 mid w2 src2, decodeNatural src = some (length, w, src1) ∧
+      decodeNatural src1 = some (mid, w2, src2) ∧ minMID ≤ mid ∧ mid < 2 ∧ mm' = mid + 1 := by
+  cases h with
+  | viewBox h1 h2 hmin => exact ⟨_, _, _, 0, _, _, h1, h2, by omega, by omega, rfl⟩
+  | palette h1 h2 hmin => exact ⟨_, _, _, 1, _, _, h1, h2, hmin, by omega, rfl⟩
+
+/-- the declared chunk length is the number of bytes between the length field and the end of the
+    chunk, whatever the declared length is -/
+theorem ChunkOk.length_consistent {m : Metadata} {minMID : Nat} {src : Bytes} {its : List Item}
+    {m' : Metadata} {mm' : Nat} {rest : Bytes} (h : ChunkOk m minMID src its m' mm' rest) :
+    ∃ length w src1 body, decodeNatural src = some (length, w, src1) ∧ src1 = body ++ rest ∧
+      body.length = length := by
+  cases h with
+  | viewBox h1 h2 hmin h4 q1 q2 q3 q4 q5 q6 hlen =>
+    obtain ⟨p2, _, rfl⟩ := decodeNatural_split h2
+    obtain ⟨p3, rfl, _⟩ := decodeCoordinates_some 4 h4
+    exact ⟨_, _, _, p2 ++ p3, h1, by simp, by simp at hlen ⊢; omega⟩
+  | @palette length w src1 w2 hb src3 its4 pal' _ h1 h2 hmin h4 hlen =>
+    obtain ⟨p2, _, h2'⟩ := decodeNatural_split h2
+    have := and63_le hb
+    obtain ⟨p3, cols, rfl, _⟩ := decodePaletteColors_some (palDec_colDec _) _ 0 _ (by omega) h4
+    refine ⟨_, _, _, p2 ++ hb :: p3, h1, by rw [h2']; simp, ?_⟩
+    rw [h2'] at hlen
+    simp at hlen ⊢; omega
+
+/-! ## float order -/
+
+theorem notNaN_of_finite {a : F32} (h : isNaNOrInfinity a = false) : Num.isNaN .f32 a.nb = false := by
+  unfold isNaNOrInfinity at h
+  simp only [beq_eq_false_iff_ne, ne_eq] at h
+  have hb : a.bits.toNat < 4294967296 := a.bits.toNat_lt
+  have e1 : Fmt.f32.signBit = 2147483648 := by decide
+  have e2 : Fmt.f32.infBits = 2139095040 := by decide
+  simp only [Num.isNaN, e1, e2, F32.nb, decide_eq_false_iff_not]
+  omega
+
+theorem toOrd_some {b : Nat} (h : Num.isNaN .f32 b = false) : ∃ x, Num.toOrd .f32 b = some x := by
+  unfold Num.toOrd
+  rw [h]
+  simp only [Bool.false_eq_true, if_false]
+  split <;> exact ⟨_, rfl⟩
+
+/-- for finite numbers, "not `c < a`" is `a ≤ c` in the IEEE order -/
+theorem le_of_not_lt {a c : F32} (ha : isNaNOrInfinity a = false) (hc : isNaNOrInfinity c = false)
+    (h : ¬ c < a) : a ≤ c := by
+  obtain ⟨x, hx⟩ := toOrd_some (notNaN_of_finite ha)
+  obtain ⟨y, hy⟩ := toOrd_some (notNaN_of_finite hc)
+  show F32.le a c = true
+  have h' : ¬ F32.lt c a = true := h
+  unfold F32.lt Num.lt at h'
+  unfold F32.le Num.le
+  rw [hx, hy] at h'
+  rw [hx, hy]
+  simp only [decide_eq_true_eq] at h' ⊢
+  omega
+
 end Ivg.DecL
